@@ -160,9 +160,11 @@ def a_norm_err(A, xs, x):
 
 
 # ---------------------------------------------------------------------------------------------- model lines
-def model_line(sc, pert=None):
+def model_line(sc, pert=None, rhs=None, x0=None, A=None):
     """Encode a scenario for the Lean driver.  `pert` multiplies the three thresholds passed explicitly."""
-    A, rhs, x0, Minv = sc["A"], sc["rhs"], sc.get("x0"), sc.get("Minv")
+    A, Minv = (sc["A"] if A is None else A), sc.get("Minv")
+    x0 = sc.get("x0") if x0 is None else x0
+    rhs = sc["rhs"] if rhs is None else rhs
     n, c = rhs.shape[-2], rhs.shape[-1]
     bshape = torch.broadcast_shapes(A.shape[:-2], rhs.shape[:-2])
     Ab = A.double().expand(*bshape, n, n).reshape(-1, n, n)
@@ -892,11 +894,32 @@ def check_solve_route(chk, consts, g, n, fam, kappa, dtype, batch, vec):
 
 
 # ---------------------------------------------------------------------------------------------- correspondence
-def compare_model(chk, sc, r, outs3, tol_rel):
-    """outs3 = model outputs for thresholds x (1, 1-d, 1+d).  Returns 'ok' | 'fragile' | ('break', what)."""
-    base, lo, hi = [parse_model(o) for o in outs3]
+PERT = 1e-11      # relative size of the data perturbation used to MEASURE the amplification of each compared quantity
+
+
+def _dev(a, b):
+    """relative 2-norm deviation of b from a (lists / tensors)"""
+    a = torch.as_tensor(a, dtype=F64).flatten()
+    b = torch.as_tensor(b, dtype=F64).flatten()
+    return float((a - b).norm()), float(a.norm())
+
+
+def compare_model(chk, sc, r, outs4, tol_rel):
+    """outs4 = model outputs for (base, thresholds x lo, thresholds x hi, data perturbed by PERT).
+    Returns 'ok' | 'fragile' | ('break', what).
+
+    Robustness rule (by construction, not by tolerance tuning): a quantity q (one column of one closure argument, one row of one
+    tridiagonal matrix, one solution column) is compared between implementation and model only while the MODEL's own q moves by
+    less than `lim` (relative 2-norm) when the right-hand side, the initial guess and (non-symmetrically) the matrix are perturbed by PERT = 1e-11, i.e. while its measured amplification is
+    below lim/PERT.  Implementation and model differ by rounding (~1e-14 relative for float64, ~1e-6 for float32 inputs), so
+    the expected legitimate deviation is <= lim * 1e-3 (float64), which is 100x below the tolerance `tolv`.  Once a column has
+    left that regime (Krylov space exhausted, stagnation at the eps floor, exact initial guess …) it is never compared again, and
+    control-flow differences that occur after ALL columns have left it are discarded as fragile."""
+    base, lo, hi, pert = [parse_model(o) for o in outs4]
+    f32 = sc["dtype"] == F32
+    lim, tolv = (3e-9, 2e-2) if f32 else (2e-6, 1e-6)
     disc = lambda d: (d.get("err"), d.get("iters"), d.get("warn"), d.get("pre"), d.get("tsize"))
-    if disc(base) != disc(lo) or disc(base) != disc(hi):
+    if disc(base) != disc(lo) or disc(base) != disc(hi) or disc(base) != disc(pert):
         return "fragile"
     if base.get("err") == "ok":
         for other in (lo, hi):
@@ -911,69 +934,108 @@ def compare_model(chk, sc, r, outs3, tol_rel):
     if r.err is not None:
         return ("break", f"implementation raised {r.err} but the model returns")
     iters = len(r.calls) - 1
+    # ---- trajectory of matmul_closure arguments, column by column, while the column is in the well-conditioned regime
+    ncol = len(base["tracev"][0])
+    dead_at = [None] * ncol            # call index at which the column left the comparable regime
+    ncalls = min(len(r.calls), len(base["tracev"]), len(pert["tracev"]))
+    # scale of each column's data: initial guess and first direction (normalised system); anything below `noise`*scale is rounding noise
+    col_scale = [max([_dev(base["tracev"][ci][cj], base["tracev"][ci][cj])[1] for ci in range(min(2, ncalls))] + [0.0]) for cj in range(ncol)]
+    noise = 1e-2 if f32 else 1e-9
+    # regime boundaries from the MODEL alone (base vs perturbed run), over all of the model's calls
+    for ci in range(min(len(base["tracev"]), len(pert["tracev"]))):
+        for cj in range(ncol):
+            if dead_at[cj] is None:
+                dm, nm = _dev(base["tracev"][ci][cj], pert["tracev"][ci][cj])
+                if (dm > lim * max(nm, 1e-300) and dm > 1e-300) or (ci >= 2 and nm < noise * col_scale[cj]):
+                    dead_at[cj] = ci
+    for ci in range(ncalls):
+        cols = flat_cols(r.calls[ci].double())
+        mcall, pcall = base["tracev"][ci], pert["tracev"][ci]
+        if len(cols) != len(mcall):
+            return ("break", f"matmul call {ci}: {len(cols)} columns vs model {len(mcall)}")
+        for cj in range(ncol):
+            if dead_at[cj] is not None and ci >= dead_at[cj]:
+                continue
+            dm, nm = _dev(mcall[cj], pcall[cj])
+            di, _ = _dev(mcall[cj], cols[cj])
+            if nm > 0:
+                chk.extra["corr_max_dev_over_tol"] = max(chk.extra.get("corr_max_dev_over_tol", 0.0), di / (tolv * nm))
+            if di > tolv * nm + 1e-300:
+                return ("break", f"argument of matmul_closure call {ci}, column {cj}: relative deviation {di / max(nm, 1e-300):.3e} "
+                        f"(implementation {cols[cj].tolist()[:3]}…, model {mcall[cj][:3]}…; measured amplification {dm / max(nm, 1e-300) / PERT:.1e})")
+    chk.count("corr_calls_compared", sum(min(d if d is not None else ncalls, ncalls) for d in dead_at))
+    inf_ = 10 ** 9
+    all_dead_before = max((d if d is not None else inf_) for d in dead_at)   # first call at which nothing is comparable any more
+    # the decision to leave the loop after iteration m (or to skip it, m = 0) is taken on the state that produces call m + 1
+    noisy_tail = all_dead_before <= min(iters, int(base["iters"])) + 1
     if iters != int(base["iters"]):
-        return ("break", f"iteration count: implementation {iters}, model {base['iters']}")
+        return "fragile" if noisy_tail else ("break", f"iteration count: implementation {iters}, model {base['iters']}")
     if r.warn != (base["warn"] == "1"):
-        return ("break", f"NumericalWarning: implementation {r.warn}, model {base['warn']}")
+        return "fragile" if noisy_tail else ("break", f"NumericalWarning: implementation {r.warn}, model {base['warn']}")
     want_pre = (len(r.pcalls) > 0) if sc.get("Minv") is not None else False
     if sc.get("Minv") is not None and want_pre != (base["pre"] == "1"):
         return ("break", f"preconditioner called before the loop: implementation {want_pre}, model {base['pre']}")
     if sc.get("Minv") is not None and want_pre and len(r.pcalls) != iters + 1:
         return ("break", f"preconditioner calls: implementation {len(r.pcalls)}, model {iters + 1}")
-
-    def close(a, b, scale):
-        return abs(a - b) <= tol_rel * scale
-
-    # trajectory of matmul_closure arguments
-    first_mag = None
-    for ci, (call, mcall) in enumerate(zip(r.calls, base["tracev"])):
-        if sc["dtype"] == F32 and ci > 3:
-            break  # float32 trajectories are compared over the first calls only (rounding drift is not modelled)
-        cols = flat_cols(call.double())
-        if len(cols) != len(mcall):
-            return ("break", f"matmul call {ci}: {len(cols)} columns vs model {len(mcall)}")
-        if ci == 1:
-            first_mag = [max((abs(v) for v in mcol), default=0.0) for mcol in mcall]
-        for cj, (col, mcol) in enumerate(zip(cols, mcall)):
-            if ci > 3 and first_mag is not None and max((abs(v) for v in mcol), default=0.0) < 1e-4 * first_mag[cj]:
-                continue  # direction shrunk by 1e4: what is left is amplified rounding noise (Krylov space exhausted)
-            sc_ = max(1.0, float(col.abs().max()))
-            for a, b in zip(col.tolist(), mcol):
-                if not close(a, b, sc_):
-                    return ("break", f"argument of matmul_closure call {ci}: implementation {a!r}, model {b!r}")
+    # ---- solution, column by column
     xcols = flat_cols(r.result.double() if r.result.dim() > 1 else r.result.double().unsqueeze(-1))
     bsh = r.result.shape
     ref = torch.linalg.solve(sc["A"].double(), sc["rhs"].double()).expand(bsh)
     refs = flat_cols(ref)
     x0s = flat_cols(sc["x0"].double().expand(bsh)) if sc.get("x0") is not None else [torch.zeros(1, dtype=F64)] * len(refs)
     kA = eff_kappa(sc)[1]
-    tol_sol = max(tol_rel, min(1e-4, 2 * kA * max(base["rnsv"], default=0.0)))
-    for col, mcol, rc, gc in zip(xcols, base["xv"], refs, x0s):
-        sc_ = max(1e-300, float(col.abs().max()), float(rc.abs().max()), float(gc.abs().max()))
-        for a, b in zip(col.tolist(), mcol):
-            if not abs(a - b) <= tol_sol * sc_ and not abs(a - b) < 1e-300:
-                return ("break", f"solution: implementation {a!r}, model {b!r}")
+    A64 = sc["A"].double()
+    bcols = flat_cols(sc["rhs"].double().expand(*bsh[:-2], sc["n"], bsh[-1]) if len(bsh) >= 2 else sc["rhs"].double().unsqueeze(-1))
+    Acols = A64.expand(*bsh[:-2], sc["n"], sc["n"]).reshape(-1, sc["n"], sc["n"]) if len(bsh) >= 2 else A64.reshape(-1, sc["n"], sc["n"])
+    ccount = bsh[-1] if len(bsh) >= 2 else 1
+    for cj, (col, mcol, pcol, rc, gc) in enumerate(zip(xcols, base["xv"], pert["xv"], refs, x0s)):
+        scale = max(1e-300, float(col.norm()), float(rc.norm()), float(gc.norm()))
+        dm, _ = _dev(mcol, pcol)
+        if f32 and dm > 1e-8 * scale:
+            continue
+        allowed = max(tol_rel, 10 * dm / scale)
+        if dead_at[cj] is not None and dead_at[cj] <= iters:
+            # the column spent its last iterations outside the comparable regime: the two results are then only known to be
+            # approximations of x* of the accuracy either run reached (relative error <= kappa * relative residual)
+            Ab = Acols[cj // ccount]
+            bn = float(bcols[cj].norm())
+            rr_impl = float((bcols[cj] - Ab @ col).norm()) / max(bn, 1e-300) if bn > 0 else float((Ab @ col).norm())
+            rr_model = base["rnsv"][cj] if cj < len(base["rnsv"]) else 0.0
+            allowed = max(allowed, 2 * kA * max(rr_impl, rr_model) * max(1.0, float(rc.norm())) / scale if bn > 0 else 2 * kA * rr_impl / scale)
+        di, _ = _dev(mcol, col)
+        if di > allowed * scale:
+            return ("break", f"solution column {cj}: relative deviation {di / scale:.3e} (allowed {allowed:.3e}); "
+                    f"implementation {col.tolist()[:3]}…, model {mcol[:3]}…")
+    # ---- tridiagonal matrices, row by row
     if sc.get("n_tridiag"):
         T = r.tmat.double()
         k = T.shape[-1]
-        if k != int(base["tsize"]):
-            if sc["dtype"] == F32 and k > 2 and int(base["tsize"]) > 2:
-                return "fragile"   # the `< 1e-6` switch-off sits at float32 rounding level
-            return ("break", f"tridiagonal size: implementation {k}, model {base['tsize']}")
         nt = sc["n_tridiag"]
+        c = r.calls[0].shape[-1]
+        nb = ncol // c
+        tri_cols = [b_ * c + j for b_ in range(nb) for j in range(nt)]           # model order: batch member, then column
+        tri_dead = max((dead_at[cj] if dead_at[cj] is not None else inf_) for cj in tri_cols)
+        if k != int(base["tsize"]):
+            # rows >= tri_dead - 1 are written from quantities outside the comparable regime (the `< 1e-6` switch-off acts on them)
+            if tri_dead - 1 <= min(k, int(base["tsize"])) or (f32 and min(k, int(base["tsize"])) >= 2):
+                return "fragile"   # (float32: the absolute `< 1e-6` switch-off test acts on entries at float32 rounding level)
+            return ("break", f"tridiagonal size: implementation {k}, model {base['tsize']}")
         Tf = T.reshape(nt, -1, k, k)
-        # float32: rows written after the residual has reached float32 rounding level are noise; compare the leading block only
-        kc = k if sc["dtype"] == F64 else (0 if sc.get("x0_kind") in ("exact", "near") else min(k, 2))
         mi = 0
         for bi in range(Tf.shape[1]):
             for j in range(nt):
-                mt = base["tv"][mi]
+                mt, pt = base["tv"][mi], pert["tv"][mi]
                 mi += 1
-                scale = max(1.0, float(Tf[j, bi].abs().max()))
-                for a_row, m_row in zip(Tf[j, bi][:kc, :kc].tolist(), mt):
-                    for a, b in zip(a_row, m_row):
-                        if not close(a, b, scale):
-                            return ("break", f"tridiagonal entry (column {j}, batch {bi}): implementation {a!r}, model {b!r}")
+                cj = bi * c + j
+                for row in range(k):
+                    dm, nm = _dev(mt[row], pt[row])
+                    if dm > lim * max(nm, 1e-300) or (dead_at[cj] is not None and row + 1 >= dead_at[cj]):
+                        break   # this and all later rows of this matrix are outside the comparable regime
+                    di, _ = _dev(mt[row], Tf[j, bi][row])
+                    if di > tolv * nm + 1e-300:
+                        return ("break", f"tridiagonal row {row} (column {j}, batch {bi}): relative deviation {di / max(nm, 1e-300):.3e}; "
+                                f"implementation {Tf[j, bi][row].tolist()}, model {mt[row]}")
+                    chk.count("corr_tridiag_rows_compared")
     return "ok"
 
 
@@ -1022,25 +1084,35 @@ def corr_scenarios(chk, consts, g, rng, count):
 
 def run_correspondence(chk, scs):
     lines, owners, impls = [], [], []
+    gp = torch.Generator().manual_seed(chk.rng.randrange(2 ** 31))
     for sc in scs:
         r = run_impl(sc)
         impls.append(r)
         d = 1e-3 if sc["dtype"] == F64 else 3e-2
         # eps is compared with squared, cancellation-prone quantities (p'Ap, r'z) only near the accuracy floor: wide window
-        lines += [model_line(sc), model_line(sc, (0.5, 1 - d)), model_line(sc, (2.0, 1 + d))]
+        xi = torch.rand(sc["rhs"].shape, generator=gp, dtype=F64) * 2 - 1
+        rhs_p = sc["rhs"].double() * (1 + PERT * xi)      # the model always computes in float64
+        x0_p = None
+        if sc.get("x0") is not None:
+            x0_p = sc["x0"].double() * (1 + PERT * (torch.rand(sc["x0"].shape, generator=gp, dtype=F64) * 2 - 1))
+        # NON-symmetric relative perturbation of the matrix: every matmul then carries a local error of relative size PERT that
+        # violates the symmetry the CG recurrences rely on - it is amplified exactly like rounding errors are (loss of
+        # orthogonality), which a perturbation of the initial data alone (another exact CG run) is not
+        A_p = sc["A"].double() * (1 + PERT * (torch.rand(sc["A"].shape, generator=gp, dtype=F64) * 2 - 1))
+        lines += [model_line(sc), model_line(sc, (0.5, 1 - d)), model_line(sc, (2.0, 1 + d)), model_line(sc, None, rhs_p, x0_p, A_p)]
     outs = chk.run_driver("C08", lines)
     if outs is None:
         return
     for i, (sc, r) in enumerate(zip(scs, impls)):
         cell = cell_of(sc, "corr")
-        o3 = outs[3 * i:3 * i + 3]
+        o3 = outs[4 * i:4 * i + 4]
         if any(o.startswith("bad") for o in o3):
             chk.proof_break("LinOp.C08.Driver", f"driver rejected a line: {o3[0][:80]}")
             return
         kk = max(10.0, eff_kappa(sc)[0], sc["kappa"])
         eps_used = sc.get("eps") if sc.get("eps") is not None else float(sc["consts"]["eps"])
         # below sqrt(eps) (normalised units) the safe divisions switch the recurrence off: vectors there are rounding noise
-        tolc = max(1e-8 * kk if sc["dtype"] == F64 else 2e-4 * kk, 3 * math.sqrt(eps_used))
+        tolc = 1e-8 * kk if sc["dtype"] == F64 else 2e-4 * kk     # solution only; trajectories/tridiagonals use the amplification rule
         verdict = compare_model(chk, sc, r, o3, tolc)
         chk.case(cell + "|" + bits(float(sc["rhs"].double().sum())), nontrivial=sc["n"] > 1)
         chk.count("corr:" + ("f32" if sc["dtype"] == F32 else "f64"))
